@@ -112,6 +112,9 @@ ContainerThm2.vos ContainerThm2.vok ContainerThm2.required_vos: ContainerThm2.v 
 PlateThm.vo PlateThm.glob PlateThm.v.beautified PlateThm.required_vo: PlateThm.v Base.vo Units.vo UnitsThm.vo Contents.vo Container.vo ContainerThm.vo ContainerThm2.vo Plate.vo
 PlateThm.vio: PlateThm.v Base.vio Units.vio UnitsThm.vio Contents.vio Container.vio ContainerThm.vio ContainerThm2.vio Plate.vio
 PlateThm.vos PlateThm.vok PlateThm.required_vos: PlateThm.v Base.vos Units.vos UnitsThm.vos Contents.vos Container.vos ContainerThm.vos ContainerThm2.vos Plate.vos
+PlateFill.vo PlateFill.glob PlateFill.v.beautified PlateFill.required_vo: PlateFill.v Base.vo Units.vo UnitsThm.vo Contents.vo Container.vo ContainerThm.vo ContainerThm2.vo Plate.vo PlateThm.vo
+PlateFill.vio: PlateFill.v Base.vio Units.vio UnitsThm.vio Contents.vio Container.vio ContainerThm.vio ContainerThm2.vio Plate.vio PlateThm.vio
+PlateFill.vos PlateFill.vok PlateFill.required_vos: PlateFill.v Base.vos Units.vos UnitsThm.vos Contents.vos Container.vos ContainerThm.vos ContainerThm2.vos Plate.vos PlateThm.vos
 SizeThm.vo SizeThm.glob SizeThm.v.beautified SizeThm.required_vo: SizeThm.v Base.vo Units.vo UnitsThm.vo Contents.vo Container.vo ContainerThm.vo ContainerThm2.vo Plate.vo PlateThm.vo
 SizeThm.vio: SizeThm.v Base.vio Units.vio UnitsThm.vio Contents.vio Container.vio ContainerThm.vio ContainerThm2.vio Plate.vio PlateThm.vio
 SizeThm.vos SizeThm.vok SizeThm.required_vos: SizeThm.v Base.vos Units.vos UnitsThm.vos Contents.vos Container.vos ContainerThm.vos ContainerThm2.vos Plate.vos PlateThm.vos
@@ -178,9 +181,9 @@ Props/C07.vos Props/C07.vok Props/C07.required_vos: Props/C07.v Base.vos Units.v
 Props/C10.vo Props/C10.glob Props/C10.v.beautified Props/C10.required_vo: Props/C10.v Base.vo Units.vo Contents.vo Container.vo ContainerThm.vo ContainerThm2.vo Dilute.vo Solve.vo Plate.vo PlateThm.vo SizeThm.vo Prog.vo HistoryThm.vo
 Props/C10.vio: Props/C10.v Base.vio Units.vio Contents.vio Container.vio ContainerThm.vio ContainerThm2.vio Dilute.vio Solve.vio Plate.vio PlateThm.vio SizeThm.vio Prog.vio HistoryThm.vio
 Props/C10.vos Props/C10.vok Props/C10.required_vos: Props/C10.v Base.vos Units.vos Contents.vos Container.vos ContainerThm.vos ContainerThm2.vos Dilute.vos Solve.vos Plate.vos PlateThm.vos SizeThm.vos Prog.vos HistoryThm.vos
-Props/C11.vo Props/C11.glob Props/C11.v.beautified Props/C11.required_vo: Props/C11.v Base.vo Units.vo UnitsThm.vo Contents.vo Container.vo ContainerThm.vo ContainerThm2.vo Dilute.vo DiluteThm.vo
-Props/C11.vio: Props/C11.v Base.vio Units.vio UnitsThm.vio Contents.vio Container.vio ContainerThm.vio ContainerThm2.vio Dilute.vio DiluteThm.vio
-Props/C11.vos Props/C11.vok Props/C11.required_vos: Props/C11.v Base.vos Units.vos UnitsThm.vos Contents.vos Container.vos ContainerThm.vos ContainerThm2.vos Dilute.vos DiluteThm.vos
+Props/C11.vo Props/C11.glob Props/C11.v.beautified Props/C11.required_vo: Props/C11.v Base.vo Units.vo UnitsThm.vo Contents.vo Container.vo ContainerThm.vo ContainerThm2.vo Dilute.vo DiluteThm.vo Plate.vo PlateThm.vo PlateFill.vo
+Props/C11.vio: Props/C11.v Base.vio Units.vio UnitsThm.vio Contents.vio Container.vio ContainerThm.vio ContainerThm2.vio Dilute.vio DiluteThm.vio Plate.vio PlateThm.vio PlateFill.vio
+Props/C11.vos Props/C11.vok Props/C11.required_vos: Props/C11.v Base.vos Units.vos UnitsThm.vos Contents.vos Container.vos ContainerThm.vos ContainerThm2.vos Dilute.vos DiluteThm.vos Plate.vos PlateThm.vos PlateFill.vos
 Props/C13.vo Props/C13.glob Props/C13.v.beautified Props/C13.required_vo: Props/C13.v Base.vo Plate.vo Slicer.vo SlicerThm.vo
 Props/C13.vio: Props/C13.v Base.vio Plate.vio Slicer.vio SlicerThm.vio
 Props/C13.vos Props/C13.vok Props/C13.required_vos: Props/C13.v Base.vos Plate.vos Slicer.vos SlicerThm.vos
